@@ -60,6 +60,13 @@ def run(ctx, progs):
     ctx.rule("CTOR1", "constructors: header = empty, storage never read")
     ctx.rule("REINT1", "slice-level reinterpretation only in reviewed functions, behind an emptiness guard")
     ctx.assumptions.append("INV1 leaves one store undecided: extend_from_slice `size + other.len()` under other.len() < N - size (needs arithmetic)")
+    ctx.rule("NONE1", "accessors answer None exactly outside the sequence (edge facts)")
+    ctx.rule("DERIV1", "every derived view forwards to one of the two primitives with pass-through arguments")
+    ctx.rule("OBS1", "observers never read start/items/capacity")
+    ctx.rule("ORD1", "std lexicographic comparison of iter()s")
+    ctx.rule("HASH1", "len once + one element hash per iter() item")
+    ctx.rule("DBG1", "debug_list().entries(<all elements in order>).finish()")
+    ctx.rule("PS1", "size/start are shrunk before drop_range runs destructors and not written afterwards")
     ctx.rule("KIND1", "index-kind inference: physical positions and logical indices/lengths are never compared, and never stand in for each other")
     for cfg, prog in progs.items():
         if cfg == "default_dbg":
@@ -82,6 +89,22 @@ def run(ctx, progs):
         from .. import drainrules
 
         drainrules.drnview1(ctx, prog, cfg, "REINT1")
+        # the header describes occupied slots also when a destructor panics: it is shrunk before drop_range
+        # runs and not touched afterwards (PS1 / PS1b of C05; here: no destroyed slot stays inside the header)
+        from . import c05
+
+        c05.ps1(ctx, prog, cfg)
+        # "equal logical contents are indistinguishable": the observers read the contents only through
+        # len/as_slices/iter and feed them to std's order/hash/list algorithms element by element (C13's rules)
+        from . import c13
+
+        c13.obs1(ctx, prog, cfg)
+        c13.ord_hash_dbg(ctx, prog, cfg)
+        # ... and the positional accessors answer from the logical position only (C07's NONE1 / DERIV1)
+        from . import c07
+
+        c07.none1(ctx, prog, cfg)
+        c07.deriv1(ctx, prog, cfg)
 
 
 # ------------------------------------------------------------------------------------------------
